@@ -262,6 +262,10 @@ func c10Check(c C10Case, cx *h.Ctx) *h.Failure {
 	if f := c10Constructors(p.pool, desc); f != nil {
 		return f
 	}
+	// decoders must not write to, nor depend on earlier decodes of, the buffers handed to them
+	if f := c10Decoders(c, p.pool, desc, cx); f != nil {
+		return f
+	}
 	// 3: another process (different hash seeds) produces the same transcript
 	if c.CrossProc {
 		if f := c10CrossProcess(c, transcript); f != nil {
